@@ -144,6 +144,19 @@ func (w *writer) Delete(rs *segment.RewriteSegment) (*writer, *reader, error) {
 		return nwrt, nil, nil
 	}
 
+	// When the last message is deleted a new empty head, named after the next offset, takes over.
+	// Create it before the rewritten segment is swapped in: a crash in between must not lose
+	// the next offset (it would be assigned again).
+	var nextWriter *writer
+	nextOffset, nextTime := w.index.getNext()
+	if rs.DeletedMessages[len(rs.DeletedMessages)-1].Offset == w.index.getLastOffset() {
+		wrt, err := openWriter(w.segment.NewAt(nextOffset), w.params, w.version, nextTime)
+		if err != nil {
+			return nil, nil, err
+		}
+		nextWriter = wrt
+	}
+
 	nseg := rs.GetNewSegment()
 	if nseg != w.segment {
 		// the starting offset of the new segment is different
@@ -156,11 +169,9 @@ func (w *writer) Delete(rs *segment.RewriteSegment) (*writer, *reader, error) {
 		}
 
 		// first move the replacement
-		nextOffset, nextTime := w.index.getNext()
-		if rs.DeletedMessages[len(rs.DeletedMessages)-1].Offset == w.index.getLastOffset() {
+		if nextWriter != nil {
 			rdr := openReader(nseg, w.params, w.version, false)
-			wrt, err := openWriter(w.segment.NewAt(nextOffset), w.params, w.version, nextTime)
-			return wrt, rdr, err
+			return nextWriter, rdr, nil
 		} else {
 			wrt, err := openWriter(nseg, w.params, w.version, nextTime)
 			return wrt, nil, err
@@ -171,11 +182,9 @@ func (w *writer) Delete(rs *segment.RewriteSegment) (*writer, *reader, error) {
 		return nil, nil, err
 	}
 
-	nextOffset, nextTime := w.index.getNext()
-	if rs.DeletedMessages[len(rs.DeletedMessages)-1].Offset == w.index.getLastOffset() {
+	if nextWriter != nil {
 		rdr := openReader(w.segment, w.params, w.version, false)
-		wrt, err := openWriter(w.segment.NewAt(nextOffset), w.params, w.version, nextTime)
-		return wrt, rdr, err
+		return nextWriter, rdr, nil
 	} else {
 		wrt, err := openWriter(w.segment, w.params, w.version, nextTime)
 		return wrt, nil, err
